@@ -5,7 +5,8 @@
            <defs·> <nOps> op…
       op = e <id> <name·> <isNew> <timeNs> <event·> <meta·> <excbits> <rulebits>   |   m
       excbits: 2 chars per exception (Match(event), Match(name)), `-` if none; rulebits: 1 char per rule
-    impl: per op `0|1`  or  `B <k> (<id> <counter>)… A <k> (<id> <counter>)…`; then `D <k> …`
+    impl: per op `0|1`  or  `B <k> (<id> <counter>)… A <k> (<id> <counter>)…` (all source counters
+          before / after the round); then `D <k> …` (Dump(): counters >= default threshold)
 
   c20.in <max> <cut> <field> <j|r> <asThr> <intervalNs> <metaField> <nExc> <checkSourceName>… <defs·>
          <nRecs> rec…
@@ -78,7 +79,7 @@ def runSpam (cfg : Antispam.Cfg) : Antispam.State → List Antispam.Op → List 
     ofBool (Antispam.isSpam cfg st e).1 :: runSpam cfg (Antispam.isSpam cfg st e).2 ops
   | st, .maint :: ops =>
     let st' := Antispam.maintenance cfg st
-    encDump "B" (Antispam.dump cfg st) :: encDump "A" (Antispam.dump cfg st') :: runSpam cfg st' ops
+    encDump "B" (Antispam.dumpAll st) :: encDump "A" (Antispam.dumpAll st') :: runSpam cfg st' ops
 
 /-- the implementation's observations (final dump dropped) -/
 def parseObs : List Antispam.Op → List String → Option (List SpecC20.Obs)
@@ -111,7 +112,7 @@ def handleSpam (args impl : List String) : Option (String × String) :=
       let cfg : Antispam.Cfg := ⟨thr, ub, iv, rn, excs, rules⟩
       let m := unwords (runSpam cfg Antispam.init ops)
       let p := match parseObs ops impl with
-        | some obs => if SpecC20.holdsSpam cfg ops obs then "ok" else "fail"
+        | some obs => SpecC20.verdictTok (SpecC20.holdsSpam cfg ops obs)
         | none => match impl with
           | t :: _ => if t.startsWith "panic" then "fail" else "bad-impl"
           | [] => "bad-impl"
